@@ -276,6 +276,29 @@ def file_assembly(run, repo):
                 run.check(okc, 'DATAFLOW.once', 'io.omkm.' + writer, 'object:' + o.name.rstrip('0123456789'),
                           '[%s] %s is emitted %d time(s) with id %s (final id %s)'
                           % (label, o.name, len(calls), [c_[1] for c_ in calls], final), m, fn)
+            # the Motz-Wise option reaches the file: as the CTI directive / on every reaction before it is emitted
+            for mw_ in (True, False):
+                I2 = new_interp(repo)
+                rx2 = [marker_obj(I2, 'rxn%d' % i, id=None, bep=None) for i in range(2)]
+                seen_mw = []
+                for r2 in rx2:
+                    def emit(I_, obj, a_, k_, f_=r2.opaque_methods['to_omkm_yaml']):
+                        seen_mw.append(obj.attrs.get('use_motz_wise'))
+                        return f_(I_, obj, a_, k_)
+                    r2.opaque_methods['to_omkm_yaml'] = emit
+                out2 = I2.call_function(m, fn, [], {'reactions': ListV(rx2), 'use_motz_wise': mw_})
+                if isinstance(out2, Raised):
+                    continue
+                if writer == 'write_cti':
+                    txt_ = ''.join(s_.text for s_ in I2.seg(out2).segs if s_.kind == 'lit') \
+                        if isinstance(out2, (str, SegStr)) else ''
+                    okm = ('enable_motz_wise()' in txt_) == mw_ and ('disable_motz_wise()' in txt_) == (not mw_)
+                else:
+                    okm = seen_mw == [mw_, mw_]
+                run.check(okm, 'DATAFLOW.option', 'io.omkm.' + writer, 'use_motz_wise=%s' % mw_,
+                          '[%s] use_motz_wise=%s does not reach the file (%s)'
+                          % (writer, mw_, 'directive missing or inverted' if writer == 'write_cti'
+                             else 'reactions emitted with %s' % seen_mw), m, fn)
             if writer == 'write_thermo_yaml':
                 fields = [list(d_.d.keys())[0] for d_ in I.dumps if isinstance(d_, DictV)]
                 run.check(sorted(fields) == sorted(['units', 'phases', 'species', 'reactions', 'beps', 'interactions']),
@@ -333,6 +356,41 @@ def phases_independent(run, repo):
             run.check(ok, 'EFFECT.membership', cname, 'add via ' + how,
                       'species added through the %s are not listed once by the phase with their .phase pointing at it'
                       % how, o2.module, f2)
+        # removals, on two coexisting phases: the phase lists exactly what is left, in order, its element set follows,
+        # and the other phase is untouched
+        for how in ('remove_species', 'pop_species', 'clear_species'):
+            if repo.find_method(ci, how, missing_ok=True) is None:
+                continue
+            I = new_interp(repo)
+            fr = Frame(I, repo.module('pmutt'), {}, None, None)
+            mk = lambda n_, el: Obj(n_, attrs={'name': n_, 'elements': DictV({el: C(1)}), 'phase': None})
+            a, b, c_ = mk('A', 'H'), mk('B', 'O'), mk('Cc', 'N')
+            d_ = mk('D', 'Pt')
+            p = fr.apply(ci, [], {'name': 'p', 'species': ListV([a, b, c_])}, None)
+            q_ = fr.apply(ci, [], {'name': 'q', 'species': ListV([d_])}, None)
+            if how == 'remove_species':
+                r_ = I.call_method(p, how, [], {'name': 'B'})
+                left = [a, c_]
+            elif how == 'pop_species':
+                r_ = I.call_method(p, how, [], {'i': C(0)})
+                left = [b, c_]
+            else:
+                r_ = I.call_method(p, how, [], {})
+                left = []
+            got = get_public(I, p, 'species')
+            other = get_public(I, q_, 'species')
+            els = get_public(I, p, 'elements')
+            want_els = sorted(list(x.attrs['elements'].d)[0] for x in left)
+            ok = not isinstance(r_, Raised) and isinstance(got, ListV) and got.items == left and \
+                isinstance(other, ListV) and other.items == [d_] and isinstance(els, ListV) and \
+                sorted(I.plain(x) for x in els.items) == want_els
+            o2, f2 = repo.find_method(ci, how)
+            run.check(ok, 'EFFECT.membership', cname, 'remove via ' + how,
+                      'after %s the phase lists %s (elements %s), expected %s (elements %s); the other phase lists %s'
+                      % (how, [getattr(x, 'name', x) for x in got.items] if isinstance(got, ListV) else show(got),
+                         show(els, 60), [x.name for x in left], want_els,
+                         [getattr(x, 'name', x) for x in other.items] if isinstance(other, ListV) else show(other)),
+                      o2.module, f2)
 
 
 def check(run, repo):
@@ -347,7 +405,8 @@ def check(run, repo):
         'are emitted, every species, reaction, phase, interaction and BEP is emitted exactly once with its final id, '
         'all sections are present, nothing crashes when collections are omitted; (d) phases of every class built '
         'without species do not share their species list, and every way of adding species (constructor, setter, '
-        'append, extend) lists them once with .phase pointing at the owner; (e) the species, phase, reaction, BEP and '
+        'append, extend) lists them once with .phase pointing at the owner, every way of removing (by name, by index, '
+        'clear) leaves exactly the rest, the element set following, a coexisting phase untouched; (e) the species, phase, reaction, BEP and '
         'interaction emitters are interpreted over abstract strings / dictionaries and every coefficient, bound, name '
         'and converted quantity is compared with the object (see emitters).')
     run.assumptions = ['yaml.dump is an uninterpreted serialiser that receives the data checked here',
